@@ -4,6 +4,7 @@ Direction and factorial tables are the ones `translator/tables.py` extracts on e
 -/
 import Mahotas.Proofs.C19Cooc
 import Mahotas.Proofs.C19Lbp
+import Mahotas.Proofs.C19LbpHist
 import Mahotas.Proofs.C19Integral
 namespace Mahotas.C19
 open Mahotas Mahotas.Generated
@@ -111,6 +112,15 @@ theorem C19_lbp_map (P v : Nat) (hP : 1 ≤ P) (hv : v < 2 ^ P) :
    fun k => lbpMap_iter P v k hP hv, lbpMap_idem P v hP hv, lbpMap_lt P v hP hv,
    iter_rollRight_period P v hP hv⟩
 
+/-- **C19-T3 (LBP histogram).** For every `P ≥ 1` and every list of `P`-bit pixel codes, the compressed
+histogram `lbp` returns (one bin per *pivot* `c = map c`, i.e. one bin per rotation class of `P`-bit
+codes) sums to the number of pixels considered, and the bin of every non-pivot code is empty — nothing
+is lost by the compression. -/
+theorem C19_lbp_histogram (P : Nat) (hP : 1 ≤ P) (codes : List Nat) (hc : ∀ v ∈ codes, v < 2 ^ P) :
+    (lbpCompress P (codes.map (lbpMap P))).sum = codes.length ∧
+    ∀ c, lbpMap P c ≠ c → (codes.map (lbpMap P)).count c = 0 :=
+  ⟨lbpCompress_sum P hP codes hc, fun c hnp => count_nonpivot_zero P hP codes hc c hnp⟩
+
 /-- **C19-T4 (integral image).** For every rectangular integer image the model of `_surf.cpp: integral`
 (the in-place recurrence `a(i,j) += a(i−1,j) + a(i,j−1) − a(i−1,j−1)`, first row and column
 included) is the two-dimensional prefix sum `Σ_{a ≤ i} Σ_{b ≤ j} f[a][b]` at every pixel, and the
@@ -132,5 +142,6 @@ theorem C19_moments_def (rows : List (List Int)) (p0 p1 : Nat) (c0 c1 : Int) :
 example : coocCount [2, 3] (fun p => ([0, 1, 1, 1, 0, 1].getD (ravelI [2, 3] p) 0)) [0, 1] 1 1 = 1 ∧
     coocSym [2, 3] (fun p => ([0, 1, 1, 1, 0, 1].getD (ravelI [2, 3] p) 0)) [0, 1] 0 1 = 3 := by decide
 example : lbpMap 4 0b0110 = 0b0011 ∧ lbpMap 4 0b1100 = 0b0011 ∧ (1 : Nat) ≤ 4 ∧ 0b0110 < 2 ^ 4 := by decide
+example : lbpCompress 3 ([1, 2, 4, 7, 5].map (lbpMap 3)) = [0, 3, 1, 1] := by decide
 example : integral 3 [[1, 2, 3], [4, 5, 6]] = [[1, 3, 6], [5, 12, 21]] := by decide
 example : moments (fun n => (n : Int)) [[1, 2], [3, 4]] 1 1 0 0 = 4 := by decide
